@@ -9,10 +9,66 @@ TECH = "deterministic simulation with fault injection: seeded search over operat
 CHECKS = {
     "C02": dict(
         level="exploration",
-        text="Seeded deterministic simulation of every hash context type (30 variants incl. keyed/odd-size/dynamic BLAKE2): up to 4 forked handles, scheduler-chosen interleaving of update/update_mut/fork/reset/reset_with_key/finalize_reset/finalize with block-boundary fragmentation and misaligned slices; every finalize and every still-live handle at end of run is compared with the library's own one-call digest of the model's byte log. All sequences of <=3 boundary operations per variant are enumerated first; the deciding step is the random search (1.5M runs quick, 60M thorough). Sampling, not proof.",
+        text="Seeded deterministic simulation of every hash context type (30 variants incl. keyed/odd-size/dynamic BLAKE2): up to 4 forked handles, scheduler-chosen interleaving of update/update_mut/fork/reset/reset_with_key/finalize_reset/finalize with block-boundary fragmentation and misaligned slices; every finalize and every still-live handle at end of run is compared with the library's own one-call digest of the model's byte log. All sequences of <=3 boundary operations per variant are enumerated first; the deciding step is the random search (1.5M runs quick, 100M thorough). Sampling, not proof.",
         ref="DESIGN.md §4.1",
         note="Trusted: the harness (PRNG, byte-log model, shrinker) and the library's one-call digest path as ground truth (a consistently wrong digest is C01's business, deliberately). Real code: all cryptoxide::hashing contexts.",
         technique=TECH + "; oracle = one-call digest of the model log",
+    ),
+    "C03": dict(
+        level="exploration",
+        text="The block counter is the stream's clock; faults are clock jumps (public seek for ChaCha/XChaCha, counter-preset hook for ChaChaOriginal/Salsa/XSalsa and for the SSE2 and portable engines driven through hook H3) to values next to 2^32-1 and to low-word carries, followed by fragmented process/process_mut histories across the boundary. Every output byte is compared with an independent RFC 8439 / Bernstein block-function model at the absolute block index, and the counter getter with ceil(position/64) after every operation. Key, nonce, rounds and key length are seeded input sampling and labelled as such. 1.5M runs quick, 100M thorough.",
+        ref="DESIGN.md §4.2",
+        note="Trusted: the harness's scalar ChaCha/Salsa/HChaCha/HSalsa model (unit-tested against RFC 8439 §2.3.2 and the XChaCha draft vector, and agreeing with the library on every run of the unchanged tree), hooks H2/H3. Does not cross 2^64 blocks (outside any specified domain).",
+        technique=TECH + "; oracle = independent keystream model + counter invariant through a hook getter",
+    ),
+    "C04": dict(
+        level="exploration",
+        text="streampos: up to 4 forked handles of one stream-cipher context, scheduler-chosen process (into a dirty destination), process_mut, fork, seek (0, mid-range, 2^32-1, from mid-block) and apply-twice; every output must be input XOR the one-call stream of a fresh context at the model's absolute position (far seeks: fresh-context seek plus adjacent-seek consistency; wrap past 2^32 blocks must land on block 0). drg: request sequences bytes<N>/fill_bytes<N>/fill_slice/u32/u64 into destinations pre-filled with PRNG garbage; outputs must be the successive bytes of the one-call ChaCha keystream. 1M+1M runs quick, 60M+60M thorough.",
+        ref="DESIGN.md §4.3",
+        note="Self-referential ground truth on purpose (the library's own one-call stream), so a wrong-but-consistent cipher trips C03, not C04. u32/u64 byte order is not part of the property: either reading is accepted.",
+        technique=TECH + "; oracle = one-call stream of a fresh context at the model position",
+    ),
+    "C05": dict(
+        level="exploration",
+        text="Poly1305 under every delivery: the message reaches the object as any sequence of input fragments (staging-buffer paths: partial+partial, partial completed exactly, partial then many blocks), with forks mid-message and result/raw_result into dirty oversized buffers; tags are compared with an independent big-integer model of RFC 8439 §2.5. Key classes (random, all-ones, r in {0,1,2}, unclamped r) and message classes (every length 0..=80 enumerated in 4 split styles, all-0xff and RFC 8439 A.3 wrap-around blocks) are part of the generator; the 'accumulator has a second representative above p' probe must fire. 2M runs quick, 150M thorough.",
+        ref="DESIGN.md §4.4",
+        note="Trusted: the harness's 320-bit integer Poly1305 model (unit-tested against RFC 8439 §2.5.2 and A.3 #5). Key/message classes are input sampling; the simulator adds the delivery dimension and the fork.",
+        technique=TECH + "; oracle = independent big-integer Poly1305",
+    ),
+    "C06": dict(
+        level="exploration",
+        text="Two parties over a fault-free channel. Sender: one-shot ChaChaPoly1305 or incremental Context -> add_data* -> to_encryption -> encrypt|encrypt_mut* -> finalize with AAD and data fragmented around 16 and 64 bytes, forks of Context and ContextEncryption mid-way (every fork is finished and checked). Receiver: independently chosen path and fragmentation. Oracles: (ciphertext, tag) equals an independent RFC 8439 §2.8 model (ChaCha block function + big-integer Poly1305) for rounds 8/12/20 and 128/256-bit keys; the receiver returns the plaintext and reports success. 1M runs quick, 80M thorough.",
+        ref="DESIGN.md §4.5",
+        note="Trusted: the two independent models above. RFC 8439 defines 256-bit keys and 20 rounds; other rounds/key lengths are checked against the same construction over the corresponding ChaCha variant.",
+        technique=TECH + "; oracle = independent RFC 8439 AEAD model + sender->receiver round trip",
+    ),
+    "C07": dict(
+        level="fault_enumeration",
+        text="Channel fault injection between a real sender and real receivers: for every sampled honest (key, nonce, aad, ciphertext, tag) the complete catalogue of alterations is enumerated (all 128 tag bits, all 96 nonce bits, every bit of components <=64 bytes and sampled bits beyond, truncation/extension by 1/15/16 with zeros and garbage, moving bytes across the AAD/ciphertext boundary both ways, swapping AAD and ciphertext, swapping the two length roles, replay under another nonce, zero tag, tag of another message), each delivered to a fresh one-shot receiver AND a fresh incremental receiver with random fragmentation. Verdict oracle: accept iff the delivered tag equals the independent model's RFC 8439 tag of exactly the delivered inputs; both receivers must agree. ~790 deliveries per run; 20k runs quick, 1.5M thorough.",
+        ref="DESIGN.md §4.6",
+        note="The catalogue is enumerated completely per sampled message (fault_enumeration); the messages themselves are sampled. Trusted: independent tag model.",
+        technique=TECH + "; channel-fault catalogue enumerated per sampled message, oracle = independent tag model",
+    ),
+    "C08": dict(
+        level="exploration",
+        text="Hmac<D> for all 18 legacy digest objects under every delivery: key-length classes {0,1,B-1,B,B+1,2B+1,random} x message fragmentation around the digest's block (enumerated shapes first, then random) x result/raw_result into a dirty buffer, compared with H((K'^opad)||H((K'^ipad)||m)) composed in the harness from the library's ONE-CALL hash and the block size written down from the standards; Digest::block_size, output_bytes and Hmac::output_bytes are compared with the specified sizes. 1M runs quick, 80M thorough.",
+        ref="DESIGN.md §4.7",
+        note="H is the library's one-call hashing function on purpose: a wrong hash blames C01, a wrong block size, pad constant, key expansion or buffering blames C08.",
+        technique=TECH + "; oracle = RFC 2104 composition over the one-call hash",
+    ),
+    "C09": dict(
+        level="exploration",
+        text="Three-state lifecycle model (absorbing / done / retired) per handle for Poly1305, Hmac over 18 digests, legacy BLAKE2b/BLAKE2s through Mac (keyed and unkeyed) and the 18 legacy digest wrappers: scheduler-chosen input, result, raw_result, reset, reset_with_key, fork over up to 3 handles, with the misuse faults 'result again' and 'input after result' injected in half of the runs. Oracles: first result == a fresh object of the same type and key fed the same bytes in one call (and == the one-call hash for digest wrappers); second result == first or a loud failure; input after result must fail loudly; reset keeps the key. 1M runs quick, 80M thorough.",
+        ref="DESIGN.md §4.8",
+        note="Self-referential ground truth ('behaves like a freshly constructed one'). A handle whose call panicked is retired (no promise about unwound objects). Keyed legacy BLAKE2 is driven through Mac only (Digest::reset on a keyed object is documented as 'state after new').",
+        technique=TECH + "; oracle = lifecycle state machine + fresh object fed in one call",
+    ),
+    "C14": dict(
+        level="fault_enumeration",
+        text="PARTIAL claim (the channel half of C14). Signer -> hostile channel -> verifier: for every sampled honest (seed, message) the complete catalogue is enumerated: untouched (must accept); all 512 signature bit flips, all 256 public-key bit flips, every/sampled message bit, truncate/extend, S+kL for k=1..15, another signer's key, another message's signature (must reject); and a Byzantine sender's 8 small-order-key forgeries (R=identity, S=0, message searched so that h and h mod L are multiples of 8, so the group equation holds by torsion arithmetic under either reading of h): must accept unless the key is the all-zero string. ~900 verifications per run; 2k runs quick, 120k thorough. The full 'iff the group equation' for arbitrary triples needs an independent curve model and is not claimed.",
+        ref="DESIGN.md §4.9",
+        note="No independent curve arithmetic. An accepted altered triple would be a forgery or SHA-512 collision (treated as impossible). Message search uses the library's SHA-512 and a harness big-integer mod L.",
+        technique=TECH + "; channel-fault catalogue enumerated per sampled signature, closed-form verdicts",
     ),
 }
 
@@ -29,14 +85,6 @@ NOT_APPLICABLE = {
 
 # properties planned (DESIGN.md) but whose check is not registered yet: listed as not claimed, honestly
 PENDING = {
-    "C03": "not claimed yet: the simulation scenario planned in DESIGN.md §4.2 is not registered at this commit",
-    "C04": "not claimed yet: the simulation scenario planned in DESIGN.md §4.3 is not registered at this commit",
-    "C05": "not claimed yet: the simulation scenario planned in DESIGN.md §4.4 is not registered at this commit",
-    "C06": "not claimed yet: the simulation scenario planned in DESIGN.md §4.5 is not registered at this commit",
-    "C07": "not claimed yet: the simulation scenario planned in DESIGN.md §4.6 is not registered at this commit",
-    "C08": "not claimed yet: the simulation scenario planned in DESIGN.md §4.7 is not registered at this commit",
-    "C09": "not claimed yet: the simulation scenario planned in DESIGN.md §4.8 is not registered at this commit",
-    "C14": "not claimed yet: the simulation scenario planned in DESIGN.md §4.9 is not registered at this commit",
     "C16": "not claimed yet: the simulation scenario planned in DESIGN.md §4.10 is not registered at this commit",
     "C17": "not claimed yet: the simulation scenario planned in DESIGN.md §4.11 is not registered at this commit",
     "C20": "not claimed yet: the simulation scenario planned in DESIGN.md §4.12 is not registered at this commit",
